@@ -223,6 +223,64 @@ def build(tier):
     u.raw("    ensures", fn=fname, props=props)
     u.emit("        other_writers == 0,", Tag("contract", fn=fname, clause=oid, props=props))
     u.emit("{ %d }  // %s" % (len(hits), ", ".join("%s:%d" % h for h in hits[:8])), Tag("repo", fn=fname, repo_file=where[0], repo_line=where[1], props=props))
+    # ---- check time: a member reached through `ns::name` that the file does not export is reported -----------------
+    from slicer import Slicer
+
+    class AccessSlicer(Slicer):
+        """keeps the test `ns_info.exported_syms.contains(&sym.name)`, every diagnostic (by its severity) and the point
+        where the type of the member that was found is returned"""
+        def __init__(self, src_):
+            Slicer.__init__(self, src_, r"severity\s*:\s*Severity\s*::\s*(?P<sev>\w+)|(?P<found>Type\s*::\s*from_value\s*\(\s*value\s*\))",
+                            flag_rx=r"ns_info\s*\.\s*exported_syms\s*\.\s*contains\s*\(\s*&\s*sym\s*\.\s*name\s*\)", flag_name="exported")
+            self.ret = "return Ghost(errors);"
+            self.n_found = self.n_err = 0
+
+        def render_effect(self, m):
+            if m.group("found"):
+                self.n_found += 1
+                return "proof { assert(exported || errors >= 1); }   // the member was found: if the file does not export it, an error was reported"
+            if m.group("sev") == "Error":
+                self.n_err += 1
+                return "proof { errors = errors + 1; }"
+            return "{}"
+
+    tc = u.source("src/checks/type_checker.rs")
+    hosts_ = [it for it in tc.all_fns() if it.name == "infer_namespace_access"]
+    if len(hosts_) != 1:
+        raise ExtractError("type_checker.rs: infer_namespace_access not found")
+    h2 = hosts_[0]
+    sl2 = AccessSlicer(tc)
+    ks = [k for k, t in enumerate(tc.toks) if h2.start <= t.start < h2.end]
+    d_, k0_ = 0, None
+    for k in ks:
+        tt = tc.toks[k].text
+        if tc.toks[k].kind == "punct" and tt in "([":
+            d_ += 1
+        elif tc.toks[k].kind == "punct" and tt in ")]":
+            d_ -= 1
+        elif tt == "{" and d_ == 0:
+            k0_ = k
+            break
+    sl2.block(k0_ + 1, sl2.close(k0_), "    ")
+    if sl2.n_found != 1 or sl2.n_guards + sl2.n_mixed < 1:
+        # (a test of exported_syms mixed with other conditions counts as nondeterministic: the obligation then fails)
+        raise ExtractError("infer_namespace_access: expected one `Type::from_value(value)` and a test of exported_syms; found %d / %d" % (sl2.n_found, sl2.n_guards + sl2.n_mixed))
+    gname = "slice_infer_namespace_access"
+    u.fn_props[gname] = props
+    u.safety_props[gname] = props
+    u.skeletons[gname] = skeleton_hash(h2.text)
+    u.items.append({"name": "infer_namespace_access (visibility slice: %d error diagnostics, %d tests of exported_syms)" % (sl2.n_err, sl2.n_guards), "generated_as": gname, "kind": "slice",
+                    "where": h2.where, "sha256_16": h2.sha(), "skeleton": u.skeletons[gname]})
+    tg2 = Tag("repo", fn=gname, repo_file="src/checks/type_checker.rs", repo_line=h2.line0, props=props)
+    u.raw("#[verifier::exec_allows_no_decreases_clause]", fn=gname, props=props)
+    u.emit("pub fn %s(exported: bool) -> (r: Ghost<int>)" % gname, tg2)
+    u.emit("{", tg2)
+    u.emit("    let ghost mut errors: int = 0;", Tag("glue", fn=gname, props=props))
+    for (ln_text, ln_no) in sl2.out:
+        u.emit(ln_text, Tag("repo", fn=gname, repo_file="src/checks/type_checker.rs", repo_line=ln_no, props=props))
+    u.emit("    Ghost(errors)", Tag("glue", fn=gname, props=props))
+    u.emit("}", tg2)
+    u.clauses.append(("exports.%s.safety@assert" % gname, props, "exported || errors >= 1 where the member's type is returned"))
     u.add_canary_proof()
     u.raw(common.FOOTER)
     return u
